@@ -7,9 +7,10 @@ namespace Rain.Loop
 /-! ### piece write -/
 
 /-- The write has completed: no job in flight, no `Writing` flag left. -/
-theorem pwdReset_winv (m : M) (w : WriteJob) (h : WInv m.1) (hw : m.1.writing = some w) :
+theorem pwdReset_winv (m : M) (w w0 : WriteJob) (h : WInv m.1) (hw : m.1.writing = some w0)
+    (hwp : w.piece = w0.piece) (hwg : w.gen = w0.gen) :
     WInv (pwdReset m w).1 ∧ (pwdReset m w).1.writing = none := by
-  refine ⟨⟨h.cfgOK, h.q, ?_, ?_, ?_, ?_, ?_, ?_, h.bd, h.dd, h.dl, h.al, h.id⟩, rfl⟩
+  refine ⟨⟨h.q, ?_, ?_, ?_, ?_, ?_, h.bd, h.dd, h.dl, h.al, h.id⟩, rfl⟩
   · intro hl i hi
     exfalso
     have hl0 : m.1.loaded = true := hl
@@ -24,7 +25,7 @@ theorem pwdReset_winv (m : M) (w : WriteJob) (h : WInv m.1) (hw : m.1.writing = 
         rw [hw] at hw'; cases hw'
         -- the flag of the job's own piece has just been cleared
         apply hne
-        refine ⟨hp'.symm, ?_⟩
+        refine ⟨hp'.symm.trans hwp.symm, ?_⟩
         have : m.1.wflag.getD i false = true := hi
         cases hlt : decide (i < m.1.wflag.length)
         · have hge : m.1.wflag.length ≤ i := by simpa using hlt
@@ -33,8 +34,7 @@ theorem pwdReset_winv (m : M) (w : WriteJob) (h : WInv m.1) (hw : m.1.writing = 
     · next hg =>
       obtain ⟨w', hw', _, hg'⟩ := h.wf hl0 i hi
       rw [hw] at hw'; cases hw'
-      exact hg hg'
-  · intro w' hw'; cases hw'
+      exact hg (hwg.trans hg')
   · intro w' hw'; cases hw'
   · intro w' hw'; cases hw'
   · intro hl
@@ -92,11 +92,10 @@ theorem pwdOthers_winv (m : M) (w : WriteJob) (b : List Bool) (h : WInv m.1) (hw
   obtain ⟨hsub, hnp⟩ := pwdOthers_dls (pwdSet (pwdDone m w) w b) w
   have hdls0 : ∀ d ∈ (pwdOthers (pwdSet (pwdDone m w) w b) w).1.dls, d ∈ m.1.dls := by
     intro d hd; simpa using hsub d hd
-  refine ⟨by simpa using h.cfgOK, h.q.of_peers (by simp), ?_, ?_, ?_, ?_, ?_, ?_, ?_, ?_, ?_, ?_, ?_⟩
+  refine ⟨h.q.of_peers (by simp), ?_, ?_, ?_, ?_, ?_, ?_, ?_, ?_, ?_, ?_⟩
   · intro hl' i hi
     obtain ⟨w', hw', _⟩ := h.wf hl i (by simpa using hi)
     rw [hw] at hw'; cases hw'
-  · intro w' hw'; simp [hw] at hw'
   · intro w' hw'; simp [hw] at hw'
   · intro w' hw'; simp [hw] at hw'
   · intro _; simpa [St.n] using h.wl hl
@@ -143,10 +142,11 @@ theorem pwdHaves_wframe (m : M) (w : WriteJob) : WFrame m.1 (pwdHaves m w).1 := 
   · simp only [send_fst]; exact hx.trans (updateInterested_wframe _ _)
 
 /-- `handlePieceWriteDone` for the job in flight (a stale result is ignored by the handler itself: fix C04-F9). -/
-theorem handlePieceWriteDone_winv (m : M) (w : WriteJob) (e : Bool) (h : WInv m.1) (l : Life m.1) (c : CompInv m.1)
-    (hw : m.1.writing = some w) : WInv (handlePieceWriteDone m w e).1 := by
+theorem handlePieceWriteDone_winv' (m : M) (w w0 : WriteJob) (e : Bool) (h : WInv m.1) (l : Life m.1) (c : CompInv m.1)
+    (hw : m.1.writing = some w0) (hwp : w.piece = w0.piece) (hwg : w.gen = w0.gen) :
+    WInv (handlePieceWriteDone m w e).1 := by
   rw [handlePieceWriteDone_eq]
-  obtain ⟨h0, hw0⟩ := pwdReset_winv m w h hw
+  obtain ⟨h0, hw0⟩ := pwdReset_winv m w w0 h hw hwp hwg
   dsimp only
   split
   · exact h0.frame (pwdBan_wframe _ _)
@@ -159,7 +159,8 @@ theorem handlePieceWriteDone_winv (m : M) (w : WriteJob) (e : Bool) (h : WInv m.
     have hl : m.1.loaded = true := by simpa using hst.2
     split
     · simp only [onSt_fst]; exact stop_winv _ _ h0
-    · obtain ⟨hv, hbit⟩ := h.wc w hw hg hl
+    · obtain ⟨hv, hbit⟩ := h.wc w0 hw (hwg.symm.trans hg) hl
+      rw [← hwp] at hbit
       have hr : m.1.errC = true ∧ m.1.stopAnn = false := by
         cases he' : m.1.errC <;> cases hs : m.1.stopAnn <;> simp
         all_goals
@@ -186,19 +187,20 @@ theorem handlePieceWriteDone_winv (m : M) (w : WriteJob) (e : Bool) (h : WInv m.
         exact pwdOthers_winv (pwdReset m w) w b h0 hw0 (by simpa using hg) (by simpa using hl) (by simpa using hv)
           (by simpa using hb')
 
+theorem handlePieceWriteDone_winv (m : M) (w : WriteJob) (e : Bool) (h : WInv m.1) (l : Life m.1) (c : CompInv m.1)
+    (hw : m.1.writing = some w) : WInv (handlePieceWriteDone m w e).1 :=
+  handlePieceWriteDone_winv' m w w e h l c hw rfl rfl
+
 /-- The job's storage calls have returned; its result is held (`gate writeDone`). -/
 theorem WInv.mark_written {s s' : St} (h : WInv s) (w : WriteJob) (hw : s.writing = some w)
     (hw' : s'.writing = some { w with written := true }) (f : WFrame s { s' with writing := s.writing }) : WInv s' := by
   have h1 := h.frame f
-  refine ⟨h1.cfgOK, h1.q, ?_, ?_, ?_, ?_, h1.wl, ?_, h1.bd, h1.dd, h1.dl, h1.al, h1.id⟩
+  refine ⟨h1.q, ?_, ?_, ?_, h1.wl, ?_, h1.bd, h1.dd, h1.dl, h1.al, h1.id⟩
   · intro hl i hi
     obtain ⟨w0, a, b, c⟩ := h1.wf hl i hi
     have a' : s.writing = some w0 := a
     rw [hw] at a'; cases a'
     exact ⟨_, hw', b, c⟩
-  · intro w0 a
-    rw [hw'] at a; cases a
-    exact h1.wb w hw
   · intro w0 a
     rw [hw'] at a; cases a
     exact h1.wg w hw
@@ -211,13 +213,12 @@ theorem WInv.mark_written {s s' : St} (h : WInv s) (w : WriteJob) (hw : s.writin
 
 theorem writerRun_winv (m : M) (w : WriteJob) (h : WInv m.1) (l : Life m.1) (c : CompInv m.1)
     (hw : m.1.writing = some w) : WInv (writerRun m w).1 := by
-  have hsec := h.wb w hw
   unfold writerRun
   dsimp only
   split
   · exact handlePieceWriteDone_winv m w false h l c hw
   · split
-    · next hnil => exact absurd hnil hsec
+    · exact handlePieceWriteDone_winv' m _ w false h l c hw rfl rfl
     · next sc rest hsecs =>
       have hfr : ∀ x : List String, WInv (onSt m fun s => { s with sto := s.sto ++ x }).1 ∧
           Life (onSt m fun s => { s with sto := s.sto ++ x }).1 ∧ CompInv (onSt m fun s => { s with sto := s.sto ++ x }).1 ∧
@@ -248,9 +249,8 @@ theorem WInv.of_stale {s s' : St} (h : WInv s) (h1 : s'.cfg = s.cfg) (h3 : s'.wr
     (hbd : s'.loaded = true → s'.verifier = false → ∀ b, s'.bf = some b →
       b.length ≤ s'.done.length ∧ ∀ i, b.getD i false = true → s'.done.getD i false = true)
     (hal : s'.allocator = true → s'.loaded = false) (hid : s'.info = true → s'.idls = []) : WInv s' := by
-  refine ⟨by rw [h1]; exact h.cfgOK, hq, ?_, ?_, ?_, ?_, hwl, ?_, hbd, ?_, ?_, hal, hid⟩
+  refine ⟨hq, ?_, ?_, ?_, hwl, ?_, hbd, ?_, ?_, hal, hid⟩
   · intro hl i hi; rw [hwf hl i] at hi; cases hi
-  · rw [h3, h1]; exact h.wb
   · intro w hw; exact Nat.le_of_lt (hg w hw)
   · intro w hw hgen; have := hg w hw; rw [hgen] at this; exact absurd this (Nat.lt_irrefl _)
   · intro w hw hgen; have := hg w hw; rw [hgen] at this; exact absurd this (Nat.lt_irrefl _)
